@@ -9,8 +9,10 @@ independent Go visibility/import oracle.
 import os
 
 THEOREMS = ["IstioModel.C07.HostTheorems", "IstioModel.C07.VisTheorems", "IstioModel.C07.VSTheorems", "IstioModel.C07.ScopeTheorems", "IstioModel.C07.PortsTheorems",
-            "IstioModel.C07.RuleTheorems", "IstioModel.C07.PolicyTheorems"]
-STREAMS = [("host", 3000, 60000), ("vis", 1500, 30000), ("scope", 2500, 50000)]
+            "IstioModel.C07.RuleTheorems", "IstioModel.C07.PolicyTheorems", "IstioModel.C07.ValidateTheorems",
+            "IstioModel.C07.IndexTheorems", "IstioModel.C07.XdsTheorems"]
+STREAMS = [("host", 3000, 60000), ("vval", 2000, 40000), ("vis", 1500, 30000), ("sev", 300, 6000), ("scope", 2500, 50000)]
+REPLAYING = [False]  # a replay only looks at the replayed case (no scan of a generated file left by an earlier run)
 
 
 def oracle(ctx, stream, case_lines, rep):
@@ -21,7 +23,7 @@ def oracle(ctx, stream, case_lines, rep):
         f.write("\n".join(case_lines) + "\n")
     cands.append(p)
     g = os.path.join(ctx.work, "%s.gen.ops" % stream)
-    if os.path.exists(g):
+    if os.path.exists(g) and not REPLAYING[0]:
         cands.append(g)
     for ops in cands:
         out = ops + ".verdict"
@@ -51,14 +53,22 @@ def oracle(ctx, stream, case_lines, rep):
 def run_oracle_over(ctx, stream, ops):
     """Second line: the independent oracle over a whole ops file."""
     out = ops + ".verdict"
-    if os.path.exists(out):
-        os.remove(out)
+    for stale in (out, out + ".counters"):
+        if os.path.exists(stale):
+            os.remove(stale)
     rc, log = ctx.harness("oracle", stream, ops, out)
     if rc != 0 or not os.path.exists(out):
         ctx.tie_broken("oracle-run:%s" % stream, log)
         return
     verdicts = ctx.read_lines(out)
     ctx.count("oracle.%s.cases" % stream, len(verdicts))
+    # branch counters: how often the generated cases reached the rare paths (exact-host fast path and its hidden-entry
+    # fallback, Kubernetes replacement, root-namespace DestinationRule, several candidate namespaces, incremental updates)
+    if os.path.exists(out + ".counters"):
+        for l in ctx.read_lines(out + ".counters"):
+            f = l.split()
+            if len(f) == 2:
+                ctx.count(f[0], int(f[1]))
     lines = ctx.read_lines(ops)
     starts = [k for k, l in enumerate(lines) if l.startswith("case")]
     for i, v in enumerate(verdicts):
@@ -163,6 +173,7 @@ def replay(ctx, path):
     if not (ctx.build_drv() and ctx.go_build()):
         return
     private_bin(ctx)
+    REPLAYING[0] = True
     p = os.path.join(ctx.work, "replay.ops")
     with open(p, "w") as f:
         f.write("\n".join(ops) + "\n")
